@@ -24,6 +24,13 @@ type State struct {
 	// path-sensitive lock history: state at the latest acquire (for atlock), per monitor at its acquire / previous release
 	lockSnap *State
 	acq, rel map[string]*State
+	// template state (definition of a spec function): every key read is a bound variable of the defining axiom
+	tmpl *tmplInfo
+}
+
+type tmplInfo struct {
+	keys  []string
+	types []*Type
 }
 
 func (s *State) clone() *State {
@@ -92,6 +99,8 @@ type Frame struct {
 }
 
 type Exec struct {
+	specDefs  map[string]*specDef
+	sliceOrig map[string]*sliceOrigin
 	prog        *Program
 	vc          *VC
 	mode        string // "seq" | "conc"
@@ -145,7 +154,7 @@ type methodVal struct {
 }
 
 func NewExec(p *Program, smtStr bool) *Exec {
-	return &Exec{prog: p, vc: NewVC(smtStr), obIndex: map[string]*Obligation{}, init0: map[string]Term{}, noteSet: map[string]bool{},
+	return &Exec{specDefs: map[string]*specDef{}, sliceOrig: map[string]*sliceOrigin{}, prog: p, vc: NewVC(smtStr), obIndex: map[string]*Obligation{}, init0: map[string]Term{}, noteSet: map[string]bool{},
 		dropped: map[string]bool{}, externs: map[string]bool{}, inlined: map[string]bool{}, havocs: map[string]bool{}, maxInl: 6, safety: true, globalVal: map[string]Term{}, allocKinds: map[string]bool{}, axiomText: map[string]string{}, knownLen: map[string]int{}, relSnap: map[string]*State{}, acqSnap: map[string]*State{}, methodVals: map[string]methodVal{}, litVals: map[string]*ast.FuncLit{}}
 }
 
@@ -176,6 +185,13 @@ func (e *Exec) get(st *State, key string, t *Type) Term {
 	if v, ok := st.vars[key]; ok {
 		return v
 	}
+	if st.tmpl != nil {
+		v := Term{fmt.Sprintf("%s!q%d", mangle(key), e.nextQ()), t}
+		st.vars[key] = v
+		st.tmpl.keys = append(st.tmpl.keys, key)
+		st.tmpl.types = append(st.tmpl.types, t)
+		return v
+	}
 	ik := e.initKey(st, key)
 	if v, ok := e.init0[ik]; ok {
 		return v
@@ -192,7 +208,18 @@ func (e *Exec) set(st *State, key string, v Term) {
 		return
 	}
 	n := e.vc.Define(key, e.Sort(v.T), v.S)
+	if o := e.sliceOrig[v.S]; o != nil {
+		e.sliceOrig[n] = o
+	}
 	st.vars[key] = Term{n, v.T}
+}
+
+// sliceOrigin: a slice value obtained by a two-index slice expression shares its backing array with the slice it was
+// cut from; an append to it may overwrite elements of that slice (slices otherwise have value semantics here).
+type sliceOrigin struct {
+	base Term
+	lo   string
+	text string
 }
 
 func isAtom(s string) bool {
@@ -201,7 +228,15 @@ func isAtom(s string) bool {
 
 func (e *Exec) havocKey(st *State, key string, t *Type) Term {
 	v := Term{e.vc.FreshConst(key, e.Sort(t)), t}
+	if old, ok := st.vars[key]; ok {
+		if o := e.sliceOrig[old.S]; o != nil {
+			e.sliceOrig[v.S] = o
+		}
+	}
 	st.vars[key] = v
+	if t != nil && t.K == KSlice && st.tmpl == nil {
+		e.assume(st, fmt.Sprintf("(>= %s 0)", e.seqLen(v))) // a slice has a non-negative length, whatever its value
+	}
 	return v
 }
 
@@ -359,6 +394,12 @@ func (e *Exec) merge(states []*State) *State {
 			t = fmt.Sprintf("(ite %s %s %s)", live[i].pc, vals[i].S, t)
 		}
 		out.vars[k] = Term{e.vc.Define(k, e.Sort(first.T), t), first.T}
+		for _, v := range vals {
+			if o := e.sliceOrig[v.S]; o != nil {
+				e.sliceOrig[out.vars[k].S] = o
+				break
+			}
+		}
 	}
 	for _, s := range live {
 		if out.lockSnap == nil {
